@@ -20,7 +20,8 @@ is handed to the blockchain module is the original transaction list — same tra
 (hence the same merkle root and, the header being copied, the same block hash). -/
 theorem rebuild_exact (s : State) (sh : TxId → SH) (key : String) (height : Int) (miner : TxId)
     (segs : List (List TxId)) (sender : Nat)
-    (hnew : s.seen.contains key = false) (hup : s.pool.up = true) (hav : Available s.pool sh segs)
+    (hnew : s.seen.contains key = false) (hup : s.pool.up = true) (hshort : s.pool.short = false)
+    (hav : Available s.pool sh segs)
     (hsize : ((1 + segs.flatten.length : Nat) : Int) ≤ bigSlice) :
     recvLt s (honest sh key height miner segs sender) =
       .ok (postChain { s with seen := key :: s.seen } key, .posted ((miner :: segs.flatten).map some)) := by
@@ -43,7 +44,7 @@ theorem rebuild_exact (s : State) (sh : TxId → SH) (key : String) (height : In
   unfold recvLt
   simp only [hnew, Bool.false_eq_true, if_false, Bool.not_true, e1, e2, e3, e4, e5]
   unfold build
-  simp only [hne, Bool.false_eq_true, if_false, hmiss, hup, Bool.not_true]
+  simp only [hne, Bool.false_eq_true, if_false, hmiss, hup, Bool.not_true, hshort, Bool.false_and]
   have hf' : fill s.pool (enumWork 1 (List.map sh flat)) (some miner :: List.replicate flat.length none) true =
       .ok (some miner :: List.map some flat, true) := by simpa using hf
   rw [hf']
@@ -77,7 +78,8 @@ segment is in the pool), the receive path posts the exact original block iff eve
 otherwise nothing is posted and the block is queued holding exactly the available transactions, in place. -/
 theorem rebuild_or_wait (s : State) (sh : TxId → SH) (key : String) (height : Int) (miner : TxId)
     (marks : List Marked) (sender : Nat)
-    (hnew : s.seen.contains key = false) (hup : s.pool.up = true) (hok : ∀ m ∈ marks, SegOk s.pool sh m)
+    (hnew : s.seen.contains key = false) (hup : s.pool.up = true) (hshort : s.pool.short = false)
+    (hok : ∀ m ∈ marks, SegOk s.pool sh m)
     (hsize : ((1 + (flatOf marks).length : Nat) : Int) ≤ bigSlice) :
     recvLt s (honest sh key height miner (marks.map (·.1)) sender) =
       if marks.all (·.2) then
@@ -108,7 +110,7 @@ theorem rebuild_or_wait (s : State) (sh : TxId → SH) (key : String) (height : 
   unfold recvLt
   simp only [hnew, Bool.false_eq_true, if_false, Bool.not_true, e1, e2, e3, e4, e5]
   unfold build
-  simp only [hne, Bool.false_eq_true, if_false, hmiss, hup, Bool.not_true]
+  simp only [hne, Bool.false_eq_true, if_false, hmiss, hup, Bool.not_true, hshort, Bool.false_and]
   have hf' : fill s.pool (enumWork 1 (List.map sh flat)) (some miner :: List.replicate flat.length none) true =
       .ok (some miner :: (marks.map segSlots).flatten, marks.all (·.2)) := by simpa using hf
   rw [hf']
